@@ -305,6 +305,76 @@ func c11Scenarios() []bScenario {
 		}
 		done(fl)
 	})
+	// a read blocked INSIDE a data callback (OnData asks for more bytes than have arrived - a length-prefixed request
+	// that comes in two pieces): the same releasing events must release it
+	for _, ev := range []string{"more-data", "session-close", "peer-death", "peer-close", "peer-session-close", "local-close"} {
+		ev := ev
+		add("callback-read-vs-"+ev, 2, 3, func() {
+			rd := &c11Call{name: "OnData:ReadBytes(10)"}
+			var sst *Stream
+			lcb := &listenCB{}
+			lcb.onNew = func(s *Stream) {
+				sst = s
+				rc := &recordingCallbacks{st: s}
+				rc.onData = func(r BufferReader) {
+					if rd.returned {
+						r.ReadBytes(r.Len())
+						return
+					}
+					c11Do(rd, func() (int, error) { b, err := r.ReadBytes(10); return len(b), err })
+				}
+				s.SetCallbacks(rc)
+			}
+			p := newEPair(pairOpts{ListenCB: lcb})
+			var cst *Stream
+			vrt.Quiet(true)
+			t0 := vrt.GoProc("open-c", 1, func() {
+				cst, _ = p.c.OpenStream()
+				c09Flush(cst, 1, 0, 5)
+			})
+			vrt.WaitThreads(t0)
+			vrt.WaitIdle(0)
+			vrt.Quiet(false)
+			if sst == nil || rd.from == 0 && rd.returned {
+				vrt.Failf("harness", "the server's callback did not start")
+			}
+			var t2 *vrt.Thread
+			switch ev {
+			case "more-data":
+				t2 = vrt.GoLazy("writer", 1, func() { c09Flush(cst, 1, 5, 5) })
+			case "session-close":
+				t2 = vrt.GoLazy("session-closer", 2, func() { p.s.Close() })
+			case "peer-session-close":
+				t2 = vrt.GoLazy("peer-session-closer", 1, func() { p.c.Close() })
+			case "peer-death":
+				t2 = vrt.GoLazy("killer", 0, func() { p.killProc(1) })
+			case "peer-close":
+				t2 = vrt.GoLazy("peer-closer", 1, func() { cst.Close() })
+			case "local-close":
+				t2 = vrt.GoLazy("local-closer", 2, func() { sst.Close() })
+			}
+			vrt.WaitThreads(t2)
+			vrt.WaitIdle(2 * vrt.Second)
+			if !rd.returned {
+				vrt.Failf("never-returned", "a ReadBytes blocked inside OnData was not released by %s", ev)
+			}
+			switch ev {
+			case "more-data":
+				if rd.err != nil || rd.n != 10 {
+					vrt.Failf("read-result", "read inside OnData with 10 bytes flushed returned %d, %v", rd.n, rd.err)
+				}
+			case "peer-close":
+				if rd.err != ErrEndOfStream {
+					vrt.Failf("read-result", "read inside OnData released by the peer's close returned %v", rd.err)
+				}
+			default:
+				if rd.err == nil || rd.err == ErrTimeout {
+					vrt.Failf("read-result", "read inside OnData released by %s returned %v", ev, rd.err)
+				}
+			}
+			done(rd)
+		})
+	}
 	return scs
 }
 
